@@ -510,6 +510,3 @@ func flagSet(fs *flag.FlagSet, name string) bool {
 	return set
 }
 
-func (e *Engine) runStatic(name string) {
-	e.failObligation("static/"+name, "static", "", "static analysis exists", "unknown static analysis "+name)
-}
